@@ -198,10 +198,26 @@ func hashCase(c *Case) string {
 	return ev.Hash(parts...)
 }
 
+// reserve, when set, reports that the rest of the soft budget belongs to a
+// test that runs later in this package (exotic_test.go sets it); the tests
+// before it then return early, exactly as they do after the deadline.
+var reserve func() bool
+
+func reserved() bool {
+	if reserve != nil && reserve() {
+		ev.Count("cases_skipped_for_reserved_budget", 1)
+		return true
+	}
+	return false
+}
+
 func TestGenerated(t *testing.T) {
 	ev.Rule(rule)
 	ev.Assume("a module is only linted after `go build ./...` accepted it; the default target version (module go 1.26.0) is used")
 	ev.Check(t, "TestGenerated", func(rt *rapid.T) {
+		if reserved() {
+			return
+		}
 		c := genCase(rt)
 		js, _ := json.Marshal(c)
 		ev.Begin("TestGenerated", "json", js)
@@ -288,7 +304,7 @@ func TestCorpora(t *testing.T) {
 		if i%ev.NShards() != ev.Shard() {
 			continue
 		}
-		if ev.PastDeadline() {
+		if ev.PastDeadline() || reserved() {
 			ev.Count("corpus_units_skipped_after_deadline", 1)
 			continue
 		}
